@@ -14,6 +14,7 @@ HARNESSES = {
     'c18_assert_current_version': dict(complete=True, quick=True, timeout=300, domain='all 2^24 format-version triples'),
     'c20_version_gte_lt': dict(complete=True, quick=True, timeout=300, domain='all u8^5 (version x threshold)'),
     'c20_gate_monotone': dict(complete=True, quick=True, timeout=300, domain='all pairs of versions x all thresholds'),
+    'k_player_bytes_8_4': dict(complete=False, bound='instantiation N=8, M=4; slice length <= 40, all contents', quick=True, timeout=900, domain='all byte contents, all lengths 0..40'),
     'c19_fix_char': dict(complete=True, quick=True, timeout=300, domain='all Unicode scalar values'),
 }
 
